@@ -45,19 +45,40 @@ def slice_words(s):
     return " / ".join(words(x) for comp in s for x in comp)
 
 
-def property_on_real(rng):
-    """the property's statements evaluated on the REAL functions alone (used by the search)"""
-    from vc2_conformance.encoder import pictures as P
-    from vc2_conformance.encoder.exceptions import InsufficientHQPictureBytesError, InsufficientLDPictureBytesError
-    from vc2_conformance.bitstream.exp_golomb import signed_exp_golomb_length
-
+def gen_case(rng):
+    """one input of the slice makers (plain data, so that it can be stored in a replay file)"""
     sx, sy = rng.randrange(1, 4), rng.randrange(1, 3)
     n = sx * sy
     nz = rng.random() < 0.3
     slices = [rand_slice(rng, nz) for _ in range(n)]
-    grid = [[comps_of(slices[y * sx + x]) for x in range(sx)] for y in range(sy)]
     minq = rng.choice([0, 0, 0, 1, 2, 5])
-    kind = rng.choice(["hq", "ld", "lossless"])
+    kind = rng.choice(["hq", "hq", "ld", "lossless"])
+    case = {"kind": kind, "sx": sx, "sy": sy, "slices": slices, "minq": minq}
+    if kind == "lossless":
+        if rng.random() < 0.5:  # component lengths around the 8-bit boundary (each `1` costs 4 bits)
+            L = rng.choice([254, 255, 256, 257, 509, 510, 511, 512, 513, 765, 768])
+            slices[0] = (([1] * (2 * L), [0] * (2 * L)), slices[0][1], slices[0][2])
+        case["min_scaler"] = rng.choice([1, 1, 2])
+    elif kind == "hq":
+        # from the minimum up to slices of several multiples of 255 bytes (safe scalers 1..5), with scaler overrides below,
+        # at and above the safe value
+        case["pb"] = 4 * n + rng.choice([0, 1, 3, n, 5 * n, 40 * n, 300 * n + 7, 520 * n + 3, 600 * n, 800 * n + 5, 1100 * n + 1])
+        case["min_scaler"] = rng.choice([1, 1, 2, 3, 4, 6])
+    else:
+        case["pb"] = n * rng.choice([1, 2, 3, 8, 20]) + rng.randrange(0, n)
+    return case
+
+
+def eval_case(case):
+    """the property's statements evaluated on the REAL slice makers alone -> reason or None"""
+    from vc2_conformance.encoder import pictures as P
+    from vc2_conformance.encoder.exceptions import InsufficientHQPictureBytesError, InsufficientLDPictureBytesError
+    from vc2_conformance.bitstream.exp_golomb import signed_exp_golomb_length
+
+    kind, sx, sy, minq = case["kind"], case["sx"], case["sy"], case["minq"]
+    slices = [tuple((list(v), list(m)) for v, m in s) for s in case["slices"]]
+    n = sx * sy
+    grid = [[comps_of(slices[y * sx + x]) for x in range(sx)] for y in range(sy)]
 
     def bits(coeffs):
         c = list(coeffs)
@@ -65,79 +86,94 @@ def property_on_real(rng):
             c.pop()
         return sum(signed_exp_golomb_length(v) for v in c)
 
+    def quantize(q, vals, qm):   # independent of the project's quantize_coeffs / forward_quant
+        out = []
+        for v, m in zip(vals, qm):
+            i = max(0, q - m)
+            base = 2 ** (i // 4)
+            r = i % 4
+            f = 4 * base if r == 0 else ((503829 * base + 52958) // 105917 if r == 1 else ((665857 * base + 58854) // 117708 if r == 2 else (440253 * base + 32722) // 65444))
+            mag = (4 * abs(v)) // f
+            out.append(mag if v > 0 else -mag)
+        return out
+
     if kind == "lossless":
-        if rng.random() < 0.5:  # component lengths around the 8-bit boundary (each `1` costs 4 bits)
-            L = rng.choice([254, 255, 256, 257, 509, 510, 511, 512, 513, 765, 768])
-            slices[0] = (([1] * (2 * L), [0] * (2 * L)), slices[0][1], slices[0][2])
-            grid = [[comps_of(slices[y * sx + x]) for x in range(sx)] for y in range(sy)]
-        scaler, td = P.make_transform_data_hq_lossless(grid, rng.choice([1, 1, 2]))
+        scaler, td = P.make_transform_data_hq_lossless(grid, case["min_scaler"])
         for s in td["hq_slices"]:
             for comp in ("y", "c1", "c2"):
                 ln = s["slice_%s_length" % comp]
                 if not (0 <= ln <= 255):
-                    return "lossless: slice_%s_length = %d does not fit 8 bits (scaler %d)" % (comp, ln, scaler), (kind, sx, sy, slices, minq)
+                    return "lossless: slice_%s_length = %d does not fit 8 bits (scaler %d)" % (comp, ln, scaler)
                 if 8 * scaler * ln < bits(s["%s_transform" % comp]):
-                    return "lossless: slice_%s_length too small for its coefficients" % comp, (kind, sx, sy, slices, minq)
-        return None, None
+                    return "lossless: slice_%s_length too small for its coefficients" % comp
+        return None
     if kind == "hq":
-        pb = 4 * n + rng.choice([0, 1, 3, n, 5 * n, 40 * n, 300 * n + 7])
+        pb = case["pb"]
         try:
-            scaler, td = P.make_transform_data_hq_lossy(pb, grid, minq, rng.choice([1, 1, 3]))
+            scaler, td = P.make_transform_data_hq_lossy(pb, grid, minq, case["min_scaler"])
         except InsufficientHQPictureBytesError:
-            return None, None
+            return None
+        if scaler < case["min_scaler"]:
+            return "hq: slice_size_scaler %d below the requested minimum %d" % (scaler, case["min_scaler"])
         total = 0
         for i, s in enumerate(td["hq_slices"]):
             lens = [s["slice_y_length"], s["slice_c1_length"], s["slice_c2_length"]]
             if any(not (0 <= ln <= 255) for ln in lens):
-                return "hq: length fields %s do not fit 8 bits" % lens, (kind, sx, sy, slices, minq, pb)
+                return "hq: length fields %s do not fit 8 bits (scaler %d)" % (lens, scaler)
             total += 4 + scaler * sum(lens)
             q = s["qindex"]
             if q < minq:
-                return "hq: qindex %d below the minimum %d" % (q, minq), (kind, sx, sy, slices, minq, pb)
-            for comp, ln in zip(("y", "c1", "c2"), lens):
+                return "hq: qindex %d below the minimum %d" % (q, minq)
+            for comp, ln, (v, m) in zip(("y", "c1", "c2"), lens, slices[i]):
+                if list(s["%s_transform" % comp]) != quantize(q, v, m):
+                    return "hq: %s coefficients are not the source coefficients quantised with the slice's qindex %d" % (comp, q)
                 if bits(s["%s_transform" % comp]) > 8 * scaler * ln:
-                    return "hq: %s coefficients do not fit their length" % comp, (kind, sx, sy, slices, minq, pb)
-            # minimality: q - 1 must not fit
-            if q > minq:
-                sl = slices[i]
+                    return "hq: %s coefficients do not fit their length" % comp
+            if q > minq:  # minimality: q - 1 must not fit
                 budget = 8 * scaler * sum(lens)
-                tot = 0
-                for (v, m) in sl:
-                    qc = P.quantize_coeffs(q - 1, v, m)
-                    tot += -(-bits(qc) // (8 * scaler)) * 8 * scaler
+                tot = sum(-(-bits(quantize(q - 1, v, m)) // (8 * scaler)) * 8 * scaler for (v, m) in slices[i])
                 if tot <= budget:
-                    return "hq: qindex %d chosen although %d already fits" % (q, q - 1), (kind, sx, sy, slices, minq, pb)
+                    return "hq: qindex %d chosen although %d already fits" % (q, q - 1)
         if not (pb - scaler < total <= pb):
-            return "hq: total slice bytes %d vs picture_bytes %d (scaler %d)" % (total, pb, scaler), (kind, sx, sy, slices, minq, pb)
-        return None, None
-    pb = n * rng.choice([1, 2, 3, 8, 20]) + rng.randrange(0, n)
+            return "hq: total slice bytes %d vs picture_bytes %d (scaler %d)" % (total, pb, scaler)
+        return None
+    pb = case["pb"]
     try:
         td = P.make_transform_data_ld_lossy(pb, grid, minq)
     except InsufficientLDPictureBytesError:
-        return None, None
-    from vc2_conformance.pseudocode.slice_sizes import slice_bytes
-    from vc2_conformance.pseudocode.state import State
-    from vc2_conformance.pseudocode.vc2_math import intlog2
-
-    st = State(slices_x=sx, slices_y=sy, slice_bytes_numerator=pb, slice_bytes_denominator=n)
+        return None
     for i, s in enumerate(td["ld_slices"]):
-        sb = slice_bytes(st, i % sx, i // sx)
-        field = intlog2(8 * sb - 7)
+        x, y = i % sx, i // sx
+        sb = ((y * sx + x + 1) * pb) // n - ((y * sx + x) * pb) // n     # slice_bytes (13.5.3.2)
+        field = (8 * sb - 7 - 1).bit_length()                           # intlog2
         yl = s["slice_y_length"]
         if not (0 <= yl < max(1, 2 ** field)):
-            return "ld: slice_y_length %d does not fit its %d-bit field" % (yl, field), (kind, sx, sy, slices, minq, pb)
+            return "ld: slice_y_length %d does not fit its %d-bit field" % (yl, field)
         avail = 8 * sb - 7 - field
         if bits(s["y_transform"]) + bits(s["c_transform"]) > avail:
-            return "ld: coefficients need more than the %d bits of the slice" % avail, (kind, sx, sy, slices, minq, pb)
+            return "ld: coefficients need more than the %d bits of the slice" % avail
+        if bits(s["y_transform"]) > yl:
+            return "ld: luma coefficients need more than slice_y_length = %d bits" % yl
         q = s["qindex"]
         if q < minq:
-            return "ld: qindex below minimum", (kind, sx, sy, slices, minq, pb)
-        if q > minq:
-            (yv, ym), (c1v, c1m), (c2v, c2m) = slices[i]
-            cv, cm = P.interleave(c1v, c2v), P.interleave(c1m, c2m)
-            if bits(P.quantize_coeffs(q - 1, yv, ym)) + bits(P.quantize_coeffs(q - 1, cv, cm)) <= avail:
-                return "ld: qindex %d chosen although %d already fits" % (q, q - 1), (kind, sx, sy, slices, minq, pb)
-    return None, None
+            return "ld: qindex below minimum"
+        (yv, ym), (c1v, c1m), (c2v, c2m) = slices[i]
+        cv = [v for pair in zip(c1v, c2v) for v in pair]
+        cm = [v for pair in zip(c1m, c2m) for v in pair]
+        if list(s["y_transform"]) != quantize(q, yv, ym) or list(s["c_transform"]) != quantize(q, cv, cm):
+            return "ld: coefficients are not the source coefficients quantised with the slice's qindex %d" % q
+        if q > minq and bits(quantize(q - 1, yv, ym)) + bits(quantize(q - 1, cv, cm)) <= avail:
+            return "ld: qindex %d chosen although %d already fits" % (q, q - 1)
+    return None
+
+
+def property_on_real(rng):
+    case = gen_case(rng)
+    try:
+        why = eval_case(case)
+    except Exception as e:  # noqa
+        why = "exception %s: %s" % (type(e).__name__, str(e)[:160])
+    return why, (case if why else None)
 
 
 class Prop(object):
@@ -188,8 +224,8 @@ class Prop(object):
                 lines.append("sl L %d | %s" % (ms, " ; ".join(" / ".join(words(c[0]) for c in s) for s in slices)))
                 exp.append("%d | %s" % (scaler, " ; ".join("%d,%d,%d" % (s["slice_y_length"], s["slice_c1_length"], s["slice_c2_length"]) for s in td["hq_slices"])))
             elif k == 1:
-                pb = 4 * n + rng.choice([-1, 0, 1, 3, n, 5 * n, 40 * n, 300 * n + 7, 70000])
-                ms = rng.choice([1, 1, 3])
+                pb = 4 * n + rng.choice([-1, 0, 1, 3, n, 5 * n, 40 * n, 300 * n + 7, 600 * n, 1100 * n + 1, 70000])
+                ms = rng.choice([1, 1, 2, 3, 4])
                 lines.append("sl H %d %d %d %d %d | %s" % (pb, minq, ms, sx, sy, " ; ".join(slice_words(s) for s in slices)))
                 try:
                     scaler, td = P.make_transform_data_hq_lossy(pb, grid, minq, ms)
@@ -227,8 +263,12 @@ class Prop(object):
         with open(path) as f:
             r = json.load(f)
         fi = r.get("failing_input")
-        print("replay: re-run ./check C14 (the failing case is regenerated from the seed recorded in the replay file):", (fi or {}).get("why"))
-        return 1
+        if not fi:
+            print("replay names broken obligations only:", r.get("broken_obligations"))
+            return 1
+        why = eval_case(fi["case"])
+        print("replay ->", why or "property holds")
+        return 1 if why else 0
 
 
 PROP = Prop()
